@@ -428,6 +428,9 @@ func H_C06_keys_of_several_bytes() {
 	x := nondetInt()
 	inner := NewObject("x", 1)
 	o := NewObject("a", 1, "n", inner)
+	// the variadic mutators with no argument at all change nothing
+	var none []string
+	verifAssert(o.Set() == o && o.Unset() == o && o.Unset(none...) == o && o.Count() == 2 && o.Pluck().Count() == 0, "Set and Unset without arguments leave the object as it was; Pluck without keys is empty")
 	ret := o.Set(k, x)
 	verifAssert(ret == o, "Set returns the object")
 	verifAssert(o.Count() == 3 && o.KeyExists(k) && o.TypeOf(k) == TypeInt && o.GetInt(k) == x && o.GetInt("a") == 1 && o.Get("n") == any(inner) && inner.Count() == 1,
